@@ -538,6 +538,7 @@ def cm_sibling_rule(repo, rep, ctx):
 
 def run(repo, rep):
     alg.reset()
+    common.state_rule(repo, rep, [('geodepy.convert', 'grid2geo')])
     common.ellipsoid_rules(repo, rep, projections=True)
     rep.trust('sv/alg.py exact normal forms; generator independence modulo the rewrite rules applied')
     rep.trust('beta oracle = exact Lagrange reversion (sv/tables.py) of the Krueger alpha table; reference inverse equations: Karney (2011) / Deakin')
